@@ -36,6 +36,8 @@ func discreteScores() []eval.Score {
 	for k := 1; k <= 127; k++ {
 		ret = append(ret, eval.MateInXScore(int8(k)), eval.MateInXScore(int8(-k)))
 	}
+	// being mated in 128 plies is constructible too (it has no counterpart on the mating side)
+	ret = append(ret, eval.MateInXScore(-128))
 	return ret
 }
 
@@ -67,7 +69,11 @@ var checkC09 = def("C09/order", func(c c09Case) error {
 		return fmt.Errorf("not total: neither %v < %v nor %v < %v", a, b, b, a)
 	}
 	_ = vc
-	// (3) negation is an involution that reverses the order.
+	// (3) negation is an involution that reverses the order (being mated in 128 has no
+	// representable negation: the law is not asked of it).
+	if !negOK(a) || !negOK(b) {
+		goto increment
+	}
 	if nn := a.Negate().Negate(); nn != a && !(nn.Type == a.Type && nn.Mate == a.Mate && nn.Pawns == a.Pawns) {
 		return fmt.Errorf("Negate(Negate(%v)) = %v", a, nn)
 	}
@@ -77,8 +83,9 @@ var checkC09 = def("C09/order", func(c c09Case) error {
 	if nv, ok := refsearch.FromScore(a.Negate()); !ok || refsearch.Cmp(nv, refsearch.Neg(va)) != 0 {
 		return fmt.Errorf("Negate(%v) = %v, specification says %v", a, a.Negate(), refsearch.Neg(va))
 	}
+increment:
 	// (4) adding a ply of mate distance keeps the relative order (distance must stay
-	// representable: |k| <= 126).
+	// representable: -127 <= k <= 126).
 	if mateOK(a) && mateOK(b) {
 		ia, ib := eval.IncrementMateDistance(a), eval.IncrementMateDistance(b)
 		if got, want := ia.Less(ib), refsearch.Less(va, vb); got != want {
@@ -107,7 +114,11 @@ var checkC09 = def("C09/order", func(c c09Case) error {
 })
 
 func mateOK(s eval.Score) bool {
-	return !isMate(s) || (s.Mate <= 126 && s.Mate >= -126)
+	return !isMate(s) || (s.Mate <= 126 && s.Mate >= -127)
+}
+
+func negOK(s eval.Score) bool {
+	return !isMate(s) || s.Mate != -128
 }
 
 // TestC09_discrete enumerates all pairs of discrete scores (won, lost, mate in +-1..127) and
@@ -142,6 +153,7 @@ func TestC09_discrete(t *testing.T) {
 	for _, d := range []int8{1, 2, 3, 4, 5, 6, 126, 127} {
 		small = append(small, eval.MateInXScore(d), eval.MateInXScore(-d))
 	}
+	small = append(small, eval.MateInXScore(-128))
 	k = 0
 	for _, a := range small {
 		for _, b := range small {
@@ -168,8 +180,8 @@ func genScore(t *rapid.T, label string) eval.Score {
 	case 1:
 		return eval.NegInfScore
 	case 2, 3, 4:
-		k := rapid.IntRange(1, 127).Draw(t, label+"_k")
-		if rapid.Bool().Draw(t, label+"_neg") {
+		k := rapid.IntRange(1, 128).Draw(t, label+"_k")
+		if rapid.Bool().Draw(t, label+"_neg") || k == 128 {
 			k = -k
 		}
 		return eval.MateInXScore(int8(k))
